@@ -29,6 +29,14 @@ type Spec struct {
 	// virtual duration in [0, YieldMax] with probability YieldP.
 	YieldP   float64       `json:"yield_p,omitempty"`
 	YieldMax time.Duration `json:"yield_max,omitempty"`
+	// Reactions run beside the action script: when the breakpoint is hit, the actions are
+	// performed at once, at that virtual instant (no sampling, no sleeping).
+	Reactions []Reaction `json:"reactions,omitempty"`
+}
+
+type Reaction struct {
+	Break   string   `json:"break"`
+	Actions []Action `json:"actions"`
 }
 
 type InstSpec struct {
@@ -68,7 +76,7 @@ type Action struct {
 	Stop     *StopVariant  `json:"stop,omitempty"`
 	Rule     *FaultRule    `json:"rule,omitempty"`
 	OrDemote bool          `json:"or_demote,omitempty"`
-	Sync     bool          `json:"sync,omitempty"` // run blocking calls on the driver goroutine
+	Sync     bool          `json:"sync,omitempty"`  // run blocking calls on the driver goroutine
 	Chain    bool          `json:"chain,omitempty"` // follows the previous action at the same virtual instant
 }
 
